@@ -68,8 +68,8 @@ theorem followUp_only_master (p : Port) (s : InstState) (id ts : Nat) (hm : p.st
 
 /-- **Delay_Resp exactness**: a Master port answers a Delay_Req received at `ts` with exactly one Delay_Resp that
 echoes the requester's port identity and sequence number, whose receive timestamp plus correction equals `ts`
-plus the request's correction, truncated to 2^-16 ns. (The I48F16 sum can overflow for |correction| near
-2^47 ns: then the call panics — C03.) -/
+plus the request's correction, truncated to 2^-16 ns — whenever that sum is representable in the 64-bit correction
+field (otherwise it saturates: `delayResp_always_answered`). -/
 theorem delayResp_exact (p : Port) (hd : Header) (ts : Nat) (hm : p.st = .master) (hts : ts < C16.TMAX)
     (hc : inI64 (hd.correction + timeSubnano ts) = true) :
     ∃ m w b, p.handleDelayReq hd ts = .ok (p, [.sendGeneral (encode m) false]) ∧
@@ -82,8 +82,8 @@ theorem delayResp_exact (p : Port) (hd : Header) (ts : Nat) (hm : p.st = .master
   refine ⟨{ header := { hd with flags := { hd.flags with twoStep := false }, src := p.id,
                                 correction := hd.correction + timeSubnano ts, logInterval := p.cfg.delayLog },
             body := .delayResp w hd.src, suffix := [] }, w, b, ?_, rfl, rfl, rfl, rfl, rfl, rfl, rfl, h1, h2, hb, ?_, ?_⟩
-  · unfold Port.handleDelayReq msgDelayResp tivAdd
-    rw [if_pos hm, if_pos hc, hw]
+  · unfold Port.handleDelayReq msgDelayResp
+    rw [if_pos hm, hw, clampI64_of_inRange _ hc]
     rfl
   · show (b : Int) + tivToDur (hd.correction + timeSubnano ts) ≤ ts + tivToDur hd.correction
     unfold tivToDur at *
@@ -91,6 +91,25 @@ theorem delayResp_exact (p : Port) (hd : Header) (ts : Nat) (hm : p.st = .master
   · show (ts : Int) + tivToDur hd.correction < (b : Int) + tivToDur (hd.correction + timeSubnano ts) + F16
     unfold tivToDur at *
     rw [Int.add_mul]; omega
+
+/-- no correction field, however extreme, makes the answer fail: the correction saturates at the ends of its range -/
+theorem delayResp_always_answered (p : Port) (hd : Header) (ts : Nat) (hm : p.st = .master) (hts : ts < C16.TMAX) :
+    ∃ m, p.handleDelayReq hd ts = .ok (p, [.sendGeneral (encode m) false]) ∧
+      m.header.correction = clampI64 (hd.correction + timeSubnano ts) ∧ inI64 m.header.correction = true := by
+  obtain ⟨w, b, hw, _⟩ := C16.wire_roundtrip ts hts
+  refine ⟨{ header := { hd with flags := { hd.flags with twoStep := false }, src := p.id,
+                                correction := clampI64 (hd.correction + timeSubnano ts), logInterval := p.cfg.delayLog },
+            body := .delayResp w hd.src, suffix := [] }, ?_, rfl, ?_⟩
+  · unfold Port.handleDelayReq msgDelayResp
+    rw [if_pos hm, hw]
+    rfl
+  · show inI64 (clampI64 _) = true
+    rw [inI64_iff, clampI64_def]
+    split
+    · exact ⟨(by decide), (by decide)⟩
+    · split
+      · exact ⟨(by decide), (by decide)⟩
+      · omega
 
 theorem delayResp_only_master (p : Port) (hd : Header) (ts : Nat) (hm : p.st ≠ .master) :
     p.handleDelayReq hd ts = .ok (p, []) := by
@@ -180,21 +199,23 @@ theorem followUp_decodes (p : Port) (s : InstState) (id ts : Nat) (m : Msg) (hp 
 theorem delayResp_decodes (p : Port) (hd : Header) (ts : Nat) (m : Msg) (hp : PortRanges p) (hh : hd.WF)
     (hts : ts < C16.TMAX) (h : msgDelayResp hd p.id p.cfg.delayLog ts = .ok m) :
     decode (encode m) = .ok m ∧ (encode m).length = 54 := by
-  obtain ⟨c, w, hc, hw, hm⟩ := msgDelayResp_ok _ _ _ _ _ h
+  obtain ⟨w, hw, hm⟩ := msgDelayResp_ok _ _ _ _ _ h
   obtain ⟨w', b, hw', h1, h2, _⟩ := C16.wire_roundtrip ts hts
   rw [hw] at hw'; cases hw'
-  unfold tivAdd at hc
-  split at hc
-  · rename_i hin
-    cases hc
-    have hr := (inI64_iff _).1 hin
-    rw [hm]
-    refine ⟨decode_encode _ (wf_of_parts _ ?_ ?_ rfl), by rw [encode_length]; rfl⟩
-    · exact ⟨hh.1, hh.2.1, hh.2.2.1, hh.2.2.2.1, hr, hp.1, hh.2.2.2.2.2.2.1, hp.2.2⟩
-    · show w.WF ∧ hd.src.WF
-      unfold NS at h2
-      exact ⟨⟨(by omega), (by omega)⟩, hh.2.2.2.2.2.1⟩
-  · cases hc
+  have hr : -9223372036854775808 ≤ clampI64 (hd.correction + timeSubnano ts) ∧
+      clampI64 (hd.correction + timeSubnano ts) < 9223372036854775808 := by
+    rw [clampI64_def]
+    split
+    · exact ⟨(by decide), (by decide)⟩
+    · split
+      · exact ⟨(by decide), (by decide)⟩
+      · omega
+  rw [hm]
+  refine ⟨decode_encode _ (wf_of_parts _ ?_ ?_ rfl), by rw [encode_length]; rfl⟩
+  · exact ⟨hh.1, hh.2.1, hh.2.2.1, hh.2.2.2.1, hr, hp.1, hh.2.2.2.2.2.2.1, hp.2.2⟩
+  · show w.WF ∧ hd.src.WF
+    unfold NS at h2
+    exact ⟨⟨(by omega), (by omega)⟩, hh.2.2.2.2.2.1⟩
 
 /-- a Pdelay_Resp to a decoded request decodes to itself and is 54 octets long -/
 theorem pdelayResp_decodes (p : Port) (s : InstState) (hd : Header) (ts : Nat) (m : Msg) (hp : PortRanges p)
@@ -492,7 +513,7 @@ theorem step_seq (i i' : Inst) (op : Op) (obs : Obs) (q : Nat) (k : Nat) (p : Po
         obtain ⟨ebest, lbs, _, _, _, l5, l6⟩ := C08.bmcaWith_ports i r.1 order step r.2 hnd hw
         obtain ⟨p', hp', a1, _, _, _, _, _, a7⟩ := l5 (k - 1) p hkg
         rw [← he.1, ← he.2.1]
-        refine ⟨p', ?_, a1, Or.inl ⟨framesOf_plain k ty _ l6, by rw [seqOf_congr p p' a7 ty]; exact hc⟩⟩
+        refine ⟨p', ?_, a1, Or.inl ⟨framesOf_plain k ty _ l6, by rw [seqOf_congr p p' (inert_seqs a7) ty]; exact hc⟩⟩
         unfold portAt; rw [if_neg (by omega)]; exact hp'
     | setSlaveOnly b =>
       simp only [Inst.step, hph, Inst.other, Except.ok.injEq, Prod.mk.injEq] at h
